@@ -408,4 +408,19 @@ def Graph.wf (g : Graph) : Bool :=
 /-- pass `q` of the description reads tensor `a` -/
 def Graph.readsAt (g : Graph) (q a : Nat) : Bool := (g.passAt q).reads.contains a
 
+/-! ## The memory-only operator in front of the boundary (`graph_optimiser_util.bypass_memory_only_ops`)
+
+A RESHAPE / SQUEEZE / EXPAND_DIMS placed on the NPU is removed ("bypassed": the producer writes the reshaped tensor) unless
+its IFM has several consumers or is produced on the CPU (a graph input counts: its Placeholder does not run on the NPU);
+then it stays as a `Memcpy`.  So a tensor that crosses the CPU→NPU boundary and is read through a RESHAPE reaches
+`_get_ifm_to_fuse` as the IFM of a Memcpy, never as the IFM of the operator behind the RESHAPE. -/
+
+inductive MemOnlyFate where
+  | memcpy | bypass
+deriving Repr, DecidableEq
+
+/-- `ifm_has_multiple_cons or ifm_is_cpu_produced` -/
+def memOnlyFate (ifmConsumers : Nat) (ifmCpuProduced : Bool) : MemOnlyFate :=
+  if decide (ifmConsumers > 1) || ifmCpuProduced then .memcpy else .bypass
+
 end VelaVerif.InPlace
